@@ -631,7 +631,7 @@ func c20LimitsFor(tier string) c20Limits {
 	if tier == "smoke" { // determinism self-test only
 		return c20Limits{scenarios: 32, maxTasks: 6, batch: 8, plainFrac: 0.25}
 	}
-	return c20Limits{scenarios: 320, maxTasks: 6, batch: 10, plainFrac: 0.25}
+	return c20Limits{scenarios: 320, maxTasks: 6, batch: 10, plainFrac: 0.25, realRuns: 6}
 }
 
 type docPool struct {
